@@ -70,7 +70,8 @@ P = {
                 verbs={"LIST", "NAMES", "WHO", "WHOIS", "PRIVMSG", "NOTICE"}, outs=ident, st=st_kinds(set()),
                 events=False, monitors=["hidden"]),
     "C13": dict(title="framing and parsing", profiles=[("fuzz", 4), ("general", 1)],
-                verbs=ALL, outs=keep_kinds({"421", "461", "417", "472", "501", "696", "ERROR", "451"}),
+                verbs=ALL, outs=keep_kinds({"421", "461", "417", "472", "501", "696", "ERROR", "451", "TOPIC", "PRIVMSG", "NOTICE",
+                                            "PART", "KICK", "NICK", "INVITE", "WALLOPS", "JOIN", "MODE", "301"}),
                 st=st_kinds(set()), events=False, fn=["msg", "cmd", "render", "codec"], monitors=["reparse"]),
     "C14": dict(title="glob matching", profiles=[("join", 1), ("speak", 1), ("secret", 1)],
                 verbs={"JOIN", "PRIVMSG", "NOTICE", "WHO", "WHOIS", "OPER", "MODE"} | REG_VERBS,
@@ -81,7 +82,7 @@ P = {
     "C16": dict(title="channel life cycle", profiles=[("chanlife", 4), ("join", 1)],
                 verbs={"JOIN", "PART", "KICK"} | END_OPS, outs=keep_kinds({"JOIN", "353", "366", "332"}),
                 st=st_kinds({"chan", "member", "ban"}), events=False, monitors=["chanlife"]),
-    "C17": dict(title="keep-alive", profiles=[], verbs={"PING", "PONG"}, outs=ident, st=st_kinds({"conn"}),
+    "C17": dict(title="keep-alive", profiles=[("pingpong", 1)], verbs={"PING", "PONG"}, outs=ident, st=st_kinds({"conn"}),
                 events=True, timer=True, monitors=[]),
     "C18": dict(title="ordering and atomicity", profiles=[("general", 1), ("reg", 1), ("join", 1)],
                 verbs=ALL, outs=ident, st=ident, events=True, conc=True, monitors=[]),
